@@ -92,6 +92,17 @@ class Report(object):
                 print('UNDECIDED: %s' % u)
             code = 2
         evidence['exit_code'] = code
+        try:
+            import jsonschema
+            with open('/root/.vp/EVIDENCE.schema.json') as f:
+                jsonschema.validate(json.loads(json.dumps(evidence, default=str)), json.load(f))
+        except ImportError:
+            pass
+        except FileNotFoundError:
+            pass
+        except Exception as e:
+            print('CHECKER-BROKEN: evidence does not validate against the schema: %s' % str(e)[:300])
+            code = 3
         write_json(os.path.join(EVIDENCE, self.prop + '.json'), evidence)
         cov = evidence.get('coverage', {})
         print('%s tier=%s level=%s obligations=%s discharged=%s violations=%d wall=%.1fs exit=%d' % (
